@@ -17,6 +17,7 @@ RULE = (
     "Oracle: the overlay computed on plain dicts (own keys win, parent-only keys remain). For the value handed back by the first call, by a second call and by a call after reopening the store: "
     "list_keys() == expected keys (sorted), every get(k) equals the expected value loaded on its own, list_keys(_include_merge_parent=False) == own keys; the body runs once. "
     "Non-trivial = chain length >= 2 with a key present in both parent and child, or a parent obtained from the cache; distinct by (chain shape, provenance, backend)."
+    " Race family (round 5): two threads memoizing two different partition-valued functions through one store, every one-preemption schedule (every 3rd yield point in quick) under C09's deterministic scheduler; each call, made again afterwards, must return its own keys and values."
 )
 ASSUMPTIONS = [
     "a merge parent is always a partition returned by a memento function (a never-serialized parent is rejected by design)",
@@ -24,7 +25,7 @@ ASSUMPTIONS = [
 ]
 MANIFEST = {
     "level": "exploration",
-    "technique": "property-based testing with Hypothesis: generated merge chains and parent provenances against a plain-dict overlay model",
+    "technique": "property-based testing with Hypothesis: generated merge chains and parent provenances against a plain-dict overlay model; plus exhaustive one-preemption schedules of two partition writers under a deterministic scheduler",
     "text": "Each generated chain is materialised level by level with controlled parent provenance; every partition handed back (first call, second call, after reopen) is compared key by key with the dict overlay.",
     "note": "Trusts the dict overlay model and typed_equal.",
 }
